@@ -10,6 +10,8 @@ mod serialize;
 use super::{Fixed, Name, SchemaError};
 
 pub use check_for_cycles::UnconditionalCycle;
+#[cfg(ten0_serde_avro_fast_verif)]
+pub use rabin::{verif_rabin_init, verif_rabin_step};
 
 /// An editable representation of an Avro schema
 ///
